@@ -74,7 +74,7 @@ class MuxObserver:
         for name, w in zip(comp.in_names, comp.in_widths):
             if name not in comp.support or w == 0:
                 doms.append((0,))
-            elif name.startswith("val"):
+            elif name.startswith("val") or (name == "w_data" and w > 2):
                 doms.append(value_tokens(w))
             else:
                 doms.append(range(1 << w))
